@@ -101,13 +101,43 @@ func runC05(c *Ctx) {
 				ok, why = false, "the operation's key is not the method's value"
 				continue
 			}
-			if p.End != EndReturn || len(p.Rets) != 1 || len(p.Conds) != 0 {
-				ok, why = false, "does not unconditionally return one flag"
+			if p.End != EndReturn || len(p.Rets) != 1 {
+				ok, why = false, "does not return one flag"
 				continue
 			}
+			flagT := &Term{Op: "extract", Args: []*Term{op.Res}, N: rw.flag}
+			if len(p.Conds) == 0 {
+				r, pol := stripNot(p.Rets[0], true)
+				if !(r.Key() == flagT.Key()) || pol == rw.negate {
+					ok, why = false, "the reported flag is not "+map[bool]string{true: "the negation of ", false: ""}[rw.negate]+"the operation's own result: "+p.Rets[0].String()
+				}
+				continue
+			}
+			// branches on the flag: the constant returned must be what the flag says on that path
+			flagVal, known := false, false
+			for _, cd := range p.Conds {
+				t, pol := stripNot(cd.T, cd.Pol)
+				if t.Key() == flagT.Key() {
+					flagVal, known = pol, true
+				} else {
+					ok, why = false, "decides on something other than the operation's own flag: "+cd.Rel().String()
+				}
+			}
+			want := flagVal != rw.negate
 			r, pol := stripNot(p.Rets[0], true)
-			if !(r.Op == "extract" && r.N == rw.flag && r.Args[0].Key() == op.Res.Key()) || pol == rw.negate {
-				ok, why = false, "the reported flag is not "+map[bool]string{true: "the negation of ", false: ""}[rw.negate]+"the operation's own result: "+p.Rets[0].String()
+			switch {
+			case !known:
+				ok, why = false, "the result does not depend on the operation's flag"
+			case r.Op == "const" && (r.Sym == "true" || r.Sym == "false"):
+				if (r.Sym == "true") == pol != want {
+					ok, why = false, fmt.Sprintf("with the flag %v the method reports %s", flagVal, p.Rets[0])
+				}
+			case r.Key() == flagT.Key():
+				if pol == rw.negate {
+					ok, why = false, "the reported flag has the wrong polarity"
+				}
+			default:
+				ok, why = false, "reports "+p.Rets[0].String()
 			}
 		}
 		o := R.Decide(ok, rule, fi.Name, "op", c.pos(fi), "one Map."+rw.op+"(value), its flag reported", why)
@@ -138,6 +168,9 @@ func c5BulkCount(c *Ctx, rule string, fi *FuncInfo, ps []*Path, elemOp string, t
 			e := &p.Events[i]
 			switch {
 			case e.Kind == "mkclosure":
+				if strings.HasSuffix(e.Val.Sym, "$bound") {
+					continue // a method value (x.Add) being formed
+				}
 				if mk != nil {
 					ok, why = false, "more than one closure"
 				}
